@@ -44,12 +44,14 @@ def _case(draw, tier):
     n = len(recs)
     # (o is the "anything" slot: None, False, 0, '', 1, 'x', True count as single elements; (), [] and (1,) are collections)
     inner = draw(st.sampled_from(["kids", "kids", "kids", "tags", "a", "s", "o", "o"]))
+    # the collection is computed on demand: flatten(p.kids_now()) - a new list at every call
+    on_demand = inner in ("kids", "tags") and chance(draw, 1, 4)
     if inner == "kids" and chance(draw, 1, 4):
         # make one list repeat an element
         r = recs[draw(st.integers(0, n - 1))]
         if r["kids"]:
             r["kids"] = r["kids"] + [r["kids"][0]]
-    np_ = draw(st.integers(1, min(4, n)))
+    np_ = draw(st.integers(1, min(4, n))) if not on_demand else min(n, draw(st.sampled_from([3, 4, 4, 5])))
     parents = list(draw(st.permutations(list(range(n))))[:np_])
     doms = [parents]
     third = chance(draw, 1, 4)
@@ -122,7 +124,7 @@ def _case(draw, tier):
                                + (["p_only", "e_attr"] if inner == "kids" and kind not in ("none", "on_p") else [])
                                + (["p_only", "p_only"] if inner in ("tags", "a", "o") and kind not in ("none", "on_p") else [])
                                + (["p_only"] * 6 if kind == "or_and" and inner in ("tags", "kids") else [])))
-    return {"ents": recs, "doms": doms, "vars": vars_, "inner": inner, "cond": cond, "cond_kind": kind, "select": sel,
+    return {"on_demand": on_demand, "ents": recs, "doms": doms, "vars": vars_, "inner": inner, "cond": cond, "cond_kind": kind, "select": sel,
             "dom_kind": "list", "split_top": draw(st.booleans())}
 
 
@@ -144,7 +146,7 @@ def build(case, objs):
     V, conts = declare_vars(case, objs)
     with symbolic_mode():
         p = V[0]
-        e = flatten(getattr(p, case["inner"]))
+        e = flatten(getattr(p, case["inner"] + "_now")() if case.get("on_demand") else getattr(p, case["inner"]))
         VV = [p, e] + V[1:]
         conds = []
         if cond is not None:
@@ -192,7 +194,7 @@ def check(case) -> Outcome:
     inners = [tuple(map(id, _inner(p, case["inner"]))) for p in parents]
     nonempty = [i for i in inners if i]
     nontrivial = len(parents) >= 2 and len(set(nonempty)) >= 2
-    classes = ["inner_" + case["inner"], "select_" + sel, "cond_" + case["cond_kind"], f"parents{len(parents)}"]
+    classes = ["inner_" + case["inner"] + ("_computed_on_demand" if case.get("on_demand") else ""), "select_" + sel, "cond_" + case["cond_kind"], f"parents{len(parents)}"]
     if any(not i for i in inners):
         classes.append("empty_inner")
     if any(len(set(i)) < len(i) for i in inners):
@@ -267,5 +269,5 @@ def render(case):
     return {"parents": [f"#{i}:Ent(a={case['ents'][i]['a']},tags={case['ents'][i]['tags']},kids={case['ents'][i]['kids']})"
                         for i in case["doms"][0]],
             "third_domain": case["doms"][1] if len(case["doms"]) > 1 else None,
-            "query": f"e = flatten(p.{case['inner']}); select {case['select']}; cond (v0=p, v1=e, v2=third) "
+            "query": f"e = flatten(p.{case['inner'] + ('_now()' if case.get('on_demand') else '')}); select {case['select']}; cond (v0=p, v1=e, v2=third) "
                      f"{A.r_cond(case['cond']) if case['cond'] else None}"}
